@@ -258,7 +258,7 @@ pub fn run_c14(ctx: &Ctx) -> i32 {
     } else {
         rep.inconclusive("public-batch circuit over the fake inner did not build");
     }
-    rep.finish(ctx, ctx.tier.pick(40, 600))
+    rep.finish(ctx, ctx.tier.pick(40, 100))
 }
 
 // ---------------------------------------------------------------------------
